@@ -19,6 +19,7 @@ import (
 	"github.com/pion/interceptor/pkg/stats"
 	"github.com/pion/interceptor/pkg/twcc"
 	"github.com/pion/logging"
+	"github.com/pion/rtcp"
 	"github.com/pion/rtp"
 )
 
@@ -44,7 +45,7 @@ type Member struct {
 // PassThroughNames lists the non-buffering interceptors of C01's chains.
 var PassThroughNames = []string{
 	"nack-generator", "nack-generator-limited", "nack-responder", "nack-responder-rtx", "report-receiver", "report-sender", "twcc-sender", "twcc-header-extension",
-	"rfc8888", "rtpfb", "stats", "packetdump-sender", "packetdump-receiver", "intervalpli", "flexfec", "cc-noop-pacer", "noop",
+	"rfc8888", "rtpfb", "stats", "packetdump-sender", "packetdump-receiver", "packetdump-sender-filtered", "packetdump-receiver-filtered", "intervalpli", "flexfec", "cc-noop-pacer", "noop",
 }
 
 // AllNames adds the buffering / pacing ones.
@@ -118,6 +119,25 @@ func NewMember(name string, interval time.Duration) Member { //nolint:cyclop
 		m.Stats = func() stats.Getter { return g }
 	case "packetdump-sender":
 		m.Factory = must(packetdump.NewSenderInterceptor(packetdump.RTPWriter(io.Discard), packetdump.RTCPWriter(io.Discard), packetdump.WithLoggerFactory(lf)))
+	case "packetdump-sender-filtered", "packetdump-receiver-filtered":
+		// binary formatters only, with filters that reject some packets of a batch: the dumper must still pass everything on untouched
+		opts := []packetdump.PacketDumperOption{
+			packetdump.RTPWriter(io.Discard), packetdump.RTCPWriter(io.Discard), packetdump.WithLoggerFactory(lf),
+			packetdump.RTPBinaryFormatter(func(p *rtp.Packet, _ interceptor.Attributes) ([]byte, error) { return p.Marshal() }),
+			packetdump.RTCPBinaryFormatter(func(p rtcp.Packet, _ interceptor.Attributes) ([]byte, error) { return p.Marshal() }),
+			packetdump.RTPFilter(func(p *rtp.Packet) bool { return p.SequenceNumber%3 != 0 }),
+			packetdump.RTCPPerPacketFilter(func(p rtcp.Packet) bool {
+				_, isRR := p.(*rtcp.ReceiverReport)
+				_, isSR := p.(*rtcp.SenderReport)
+
+				return !isRR && !isSR
+			}),
+		}
+		if name == "packetdump-sender-filtered" {
+			m.Factory = must(packetdump.NewSenderInterceptor(opts...))
+		} else {
+			m.Factory = must(packetdump.NewReceiverInterceptor(opts...))
+		}
 	case "packetdump-receiver":
 		m.Factory = must(packetdump.NewReceiverInterceptor(packetdump.RTPWriter(io.Discard), packetdump.RTCPWriter(io.Discard), packetdump.WithLoggerFactory(lf)))
 	case "intervalpli":
